@@ -67,6 +67,15 @@ def fakeOutcome (secret : String) : AuthOutcome :=
     else .error 400
   | _ => .error 400
 
+/-- a token secret which is no token: `z<n>` stands for n bytes of `A` - shorter than a token (18 bytes of data + 32 of signature) it is
+malformed (400), longer it fails the signature check (401) -/
+def junkToken (secret : String) : Option AuthOutcome :=
+  if secret.startsWith "z" then
+    match (secret.drop 1).toString.toNat? with
+    | some n => some (.error (if n < 50 then 400 else 401))
+    | none => none
+  else none
+
 def kindOf : String → Option Kind
   | "pub" => some .pub | "sub" => some .sub | "leave" => some .leave | "get" => some .get | "set" => some .set
   | "del" => some .del | "note" => some .note | "empty" => some .empty | "hi" => some .hi | "login" => some .login
@@ -108,7 +117,7 @@ def step (st : St) (ws : List String) : Option (St × String) :=
                   match st.lastTok with
                   | some (u, l, nl, _) => .ok u l (u ≠ "U2") nl false
                   | none => .error 400
-                 else .error 400)
+                 else match junkToken secret with | some o => o | none => .error 400)
               else .unknownScheme
             -- the "validated" feature of the record: scripted for `vfake`, read from the token otherwise
             let validatedF : Bool :=
@@ -136,7 +145,8 @@ def step (st : St) (ws : List String) : Option (St × String) :=
           | some code => some (st, render [s!"{code}/1"] "" (uid, lvl) s)
           | none =>
             -- known scheme: the harness only sends failing temporary secrets here
-            let code := match fakeOutcome (kvGet m "tmpsecret") with | .error c => c | _ => 0
+            let code := match (if tmp = "token" then (junkToken (kvGet m "tmpsecret")).getD (.error 400) else fakeOutcome (kvGet m "tmpsecret")) with
+              | .error c => c | _ => 0
             if code = 0 then none else some (st, render [s!"{code}/1"] "" (uid, lvl) s)
         | _ =>
           let (r, hub) := passReaction k
